@@ -3,9 +3,11 @@ import os
 
 from hypothesis import strategies as st
 
+from .. import fuzzrun
+
 from .. import indxgen as G
 from .. import indxref as R
-from ..core import Sub, Violation, libcall
+from ..core import VERIF, Sub, Violation, libcall
 from .c10 import compare_loaded
 
 PROPERTY = "C11"
@@ -166,7 +168,31 @@ def check_size(case, rec):
         rec.nontrivial_enum()
 
 
+def fuzz_check(case, rec):
+    """Replay entry for cases found by the fuzzing campaign (writer or reader direction)."""
+    if "rw" in case:
+        return check_reader(case, rec)
+    return check_writer(case, rec)
+
+
+def fuzz_seeds(corpus):
+    seeds = [R.ref_encode([((1, 2), [3, 5]), ((1, 1), [1, 4])], 0), R.ref_encode([], 7),
+             R.ref_encode([((70000,), [0, 1, 2])], 300, iw=8, rw=2),
+             R.ref_encode([((1, 300, 5), []), ((2, 0, 0), [4294967295])], 70000, rw=8)]
+    for i, s_ in enumerate(seeds):
+        with open(os.path.join(corpus, "seed%d" % i), "wb") as f:
+            f.write(bytes([2]) + s_)
+
+
+def fuzz_runner(sub, tier, seed, shard, nshards, rec):
+    os.environ["VFW_FUZZ_MODE"] = "c11"
+    fuzzrun.run_campaign(sub, tier, seed, shard, nshards, rec,
+                         os.path.join(VERIF, "vfw", "fuzz", "indx_fuzz.py"),
+                         {"quick": 2000, "thorough": 250000}, asan=False, seed_corpus=fuzz_seeds, max_len=4096)
+
+
 SUBS = [
+    Sub("fuzz", fuzz_check, runner=fuzz_runner, shards={"quick": 2, "thorough": 8}, weight=9),
     Sub("writer", check_writer, strategy=lambda tier: G.indx_cases(40 if tier == "quick" else 120, 50),
         examples={"quick": 3000, "thorough": 100000}),
     Sub("reader", check_reader, strategy=lambda tier: reader_cases(30 if tier == "quick" else 80, 40),
